@@ -107,9 +107,16 @@ func genVest(g *Gen, n int) {
 		}
 		owners := []string{vaddr(0), vaddr(1), keyedAddr(0)}
 		fresh := 3
+		den := "uc4e"
+		if g.chance(0.2) {
+			// the vesting denom is changed by governance before any pool exists
+			den = "uvest"
+			g.emit("v.updateDenom gov %s", den)
+			g.count("setup/non-default-denom")
+		}
 		for _, o := range owners {
 			if g.chance(0.85) {
-				g.emit("v.fund %s [uc4e=%s]", o, g.logBig(20+g.intn(8)))
+				g.emit("v.fund %s [%s=%s]", o, den, g.logBig(20+g.intn(8)))
 			}
 		}
 		if g.chance(0.3) {
@@ -133,8 +140,8 @@ func genVest(g *Gen, n int) {
 			// a continuous vesting account with locked coins that will try to create pools
 			va := vaddr(7)
 			ov := g.logBig(15)
-			g.emit("v.acct %s cva [uc4e=%s] %d %d", va, ov, now/sec-g.pickI(0, 10, 1000), now/sec+g.pickI(1000, 100000))
-			g.emit("v.fund %s [uc4e=%s]", va, new(big.Int).Add(ov, big.NewInt(int64(g.intn(1000)))))
+			g.emit("v.acct %s cva [%s=%s] %d %d", va, den, ov, now/sec-g.pickI(0, 10, 1000), now/sec+g.pickI(1000, 100000))
+			g.emit("v.fund %s [%s=%s]", va, den, new(big.Int).Add(ov, big.NewInt(int64(g.intn(1000)))))
 			owners = append(owners, va)
 			cvas = append(cvas, va)
 			g.count("setup/vesting-owner")
